@@ -142,9 +142,9 @@ def run(chk):
         chk.cov["traces_validated_against_impl"] += 1
         distinct.add((n, str(deps), str(listing)))
     # back-end providers (module_antidepends, README "must be unloaded after it"): m in anti[x'] means x' is a back end for m... here
-    # anti[b] lists the modules b provides for; each such module depends on b.  Not in the Coq model: judged by the oracle below only
-    # (every loaded module constructed / post-initialised / destroyed once, depends edges as before, and for BOTH kinds of edge the
-    # dependent's destructor runs before the provider's).
+    # anti[b] lists the modules b provides for; each such module depends on b.  Judged by the oracle below (every loaded module
+    # constructed / post-initialised / destroyed once, depends edges as before, and for BOTH kinds of edge the dependent's destructor
+    # runs before the provider's) and compared event for event with the extended loader model ModAnti.run2.
     agraphs = []
     for _ in range(120 if quick else 3000):
         n = rng.choice([3, 4, 5])
@@ -161,7 +161,9 @@ def run(chk):
     agraphs.append((3, [[2], [], []], [[], [2], []], [0, 1]))
     agraphs.append((3, [[2], [], []], [[], [2], []], [1, 0]))
     ares = pmap(lambda g: run_daemon(impl, g[0], g[1], g[3], anti=g[2]), agraphs)
-    for (n, deps, anti, listing), (rc, evs, out) in zip(agraphs, ares):
+    aspec = lambda n, deps, anti, listing: "A;%d;%s;%s;%s" % (n, ";".join(",".join(str(d) for d in deps[i]) for i in range(n)), ";".join(",".join(str(d) for d in anti[i]) for i in range(n)), ",".join(str(x) for x in listing))
+    amodel = subprocess.run([str(drv)], input=("\n".join(aspec(*g) for g in agraphs) + "\n").encode(), stdout=subprocess.PIPE, timeout=600).stdout.decode().split("\n")[:-1]
+    for (n, deps, anti, listing), (rc, evs, out), aml in zip(agraphs, ares, amodel + [""] * len(agraphs)):
         if len(chk.violations) >= 4: break
         chk.cov["evaluations"] += 1; chk.hist("graphs with back-end (antidepends) edges")
         loaded = []; todo = list(listing)
@@ -184,9 +186,12 @@ def run(chk):
                         if not evs.index("DT%d" % m) < evs.index("DT%d" % d): why = why or "destructor of m%d ran after that of its dependency m%d" % (m, d)
                     for x in anti[m]:
                         if not evs.index("DT%d" % x) < evs.index("DT%d" % m): why = why or "back end m%d (declared with module_antidepends for m%d) was destroyed before m%d" % (m, x, x)
+        afound = True
+        if why is None and not ((aml == "ABORT" and rc != 0) or (rc == 0 and aml.split(" ") == evs)):
+            why = "module.c and the Coq loader model with back-end declarations (ModAnti.run2) disagree: implementation (exit %s) %s, model %s" % (rc, " ".join(evs), aml); afound = False
         if why:
             chk.violation("modules with back-end declarations: depends %s, back end for %s (listed: %s): %s" % ({("m%d" % i): ["m%d" % d for d in deps[i]] for i in range(n)}, {("m%d" % i): ["m%d" % d for d in anti[i]] for i in range(n) if anti[i]}, ["m%d" % x for x in listing], why),
-                          "depends: %s\nantidepends: %s\nconfiguration lists: %s\nevent log of the daemon (exit %s): %s\noutput:\n%s" % (deps, anti, listing, rc, " ".join(evs), out), "mod:anti:" + why[:30])
+                          "depends: %s\nantidepends: %s\nconfiguration lists: %s\nevent log of the daemon (exit %s): %s\noutput:\n%s" % (deps, anti, listing, rc, " ".join(evs), out), "mod:anti:" + why[:30], found_input=afound)
             continue
         chk.cov["traces_validated_against_impl"] += 1
     # an unloadable module aborts start-up
